@@ -8,10 +8,12 @@ import (
 	"crypto/sha256"
 	"fmt"
 	"io"
+	"math/big"
 	"os"
 	"sort"
 	"strings"
 	"sync"
+	"time"
 
 	"github.com/containerd/stargz-snapshotter/metadata"
 )
@@ -27,7 +29,7 @@ type Node struct {
 	Path     []string    `json:"path"`
 	Size     int64       `json:"size"`
 	HasMTime bool        `json:"hasmtime"`
-	MTime    int64       `json:"mtime"`
+	MTime    string      `json:"mtime"` // exact nanoseconds since the Unix epoch (decimal; no int64 overflow for years 1..9999)
 	Link     string      `json:"link"`
 	Mode     uint32      `json:"mode"`
 	UID      int         `json:"uid"`
@@ -88,8 +90,9 @@ func (in *interner) id(s string) int {
 func canonAttr(a metadata.Attr, n *Node) {
 	n.Size = a.Size
 	n.HasMTime = !a.ModTime.IsZero()
+	n.MTime = "0"
 	if n.HasMTime {
-		n.MTime = a.ModTime.UnixNano()
+		n.MTime = timeKey(a.ModTime)
 	}
 	n.Link = a.LinkName
 	n.Mode = uint32(a.Mode)
@@ -396,4 +399,11 @@ func preReads(ps []PreCall) []PreCall {
 		}
 	}
 	return out
+}
+
+// timeKey is the instant of t as exact nanoseconds since the Unix epoch.
+func timeKey(t time.Time) string {
+	v := new(big.Int).Mul(big.NewInt(t.Unix()), big.NewInt(1000000000))
+	v.Add(v, big.NewInt(int64(t.Nanosecond())))
+	return v.String()
 }
